@@ -209,7 +209,23 @@ def as_int(v):
 
 
 def bounds_tuple(b):
-    return (int(b.lower), int(b.upper))
+    """(lower, upper) of a puan.Bounds result. Every way a caller reads such a result must tell the same story: the fields,
+    as_tuple(), unpacking / iteration, equality with a Bounds and with a tuple (the library's own tests compare results
+    that way), and ``constant``."""
+    t = (int(b.lower), int(b.upper))
+    if type(b).__name__ == "Bounds":
+        from vf.core import Violation
+        import puan
+        views = {"as_tuple()": tuple(int(x) for x in b.as_tuple()), "tuple(bounds)": tuple(int(x) for x in b)}
+        for name, v in views.items():
+            if v != t:
+                raise Violation(f"a returned Bounds reads {t} through .lower/.upper but {v} through {name}")
+        if not (b == puan.Bounds(*t)) or not (b == t) or (b == puan.Bounds(t[0] - 1, t[1])) or (b == puan.Bounds(t[0], t[1] + 1)) or (b == (t[0], t[1] + 1)):
+            raise Violation(f"a returned Bounds {t} does not compare like the pair it holds (== with Bounds / tuples)")
+        c = b.constant
+        if (c is None) != (t[0] != t[1]) or (c is not None and int(c) != t[0]):
+            raise Violation(f"a returned Bounds {t} reports constant={c}")
+    return t
 
 
 def feasible_mask(rws, pts):
